@@ -314,7 +314,7 @@ func (k *sharedRunner) run() string {
 	case "limitfind":
 		var rs []Rec
 		tx := a.Limit(k.c.ALimit).Find(&rs)
-		k.rowsAre(fmt.Sprintf("%sA.Limit(%d).Find", after, k.c.ALimit), k.ref(k.c.AOrder, Call{"limit", k.c.ALimit}), tx, recsToRows(rs))
+		k.rowsAre(fmt.Sprintf("%sA.Limit(%d).Find", after, k.c.ALimit), k.ref(k.c.AOrder, Call{Kind: "limit", N: k.c.ALimit}), tx, recsToRows(rs))
 	}
 	if k.fail != "" {
 		return k.fail
